@@ -4,3 +4,5 @@ PAIRS = [A[k] for k in ("clear_abandoned", "mark_abandoned", "clear_abandoned_at
 import heap_collect_common as _hc
 PAIRS += [_hc.pair()]      # mi_heap_collect_ex: steps, force flags and order of a collection
 PAIRS += [_hc.page_collect_pair()]      # per-page step of a collection: empty => freed, live blocks => kept (abandoned on thread exit), never freed
+import page_common as _pc
+PAIRS += [_pc.page_abandon_pair()]      # a page with live blocks is unlinked, detached and handed to the segment layer once; nothing is freed
